@@ -72,6 +72,7 @@ def gen(rnd, max_dom=3):
         np_ = preds.pop(0)
         d = dict(subj=subj, label=first['slabel'], newpred=np_, body=body)
         d['oneof'] = pick_oneof(rnd, concepts, body)
+        d['oneof2'] = pick_oneof(rnd, concepts, body, other_than=d['oneof'][0], p=0.5) if d['oneof'] else None
         sentences.append(('def', d))
     for _ in range(rnd.choice([0, 1, 1, 2])):
         lab = labels_for()
@@ -91,24 +92,57 @@ def gen(rnd, max_dom=3):
         if len(intlabels) >= 2 and rnd.random() < 0.4:
             a, b = rnd.sample(intlabels, 2)
             wh = dict(left=a, phrase=rnd.choice(PHRASES), right=b)
-        sentences.append(('cons', dict(required=req, whenpart=whenpart, main=main, wh=wh, oneof=None if wh else pick_oneof(rnd, concepts, whenpart + main))))
+        oo = None if wh else pick_oneof(rnd, concepts, whenpart + main)
+        oo2 = pick_oneof(rnd, concepts, whenpart + main, other_than=oo[0], p=0.5) if oo else None
+        sentences.append(('cons', dict(required=req, whenpart=whenpart, main=main, wh=wh, oneof=oo, oneof2=oo2)))
+    # 'It is required/prohibited that there is [not] a <relation> with ...': one named instance of a chosen relation (a single clause, so
+    # a requirement negates the clause itself rather than the members of a list)
+    plain = [x for x in chosen if not x[0][1] and not x[0][2]]
+    for _ in range(rnd.choice([0, 1, 1, 2]) if plain else 0):
+        v, subj, obj = rnd.choice(plain)
+        vals = []
+        for cname in (subj, obj):
+            c = [x for x in concepts if x['name'] == cname][0]
+            d = c['dom']
+            pool = [str(x) for x in range(d[1], d[2] + 2)] if d[0] == 'range' else list(d[1]) + [e for e in ENUM if e not in d[1]][:1]
+            vals.append((cname, c['key'], rnd.choice(pool)))
+        sentences.append(('there', dict(required=rnd.random() < 0.5, neg=rnd.random() < 0.5, verb=v, subj=vals[0], obj=vals[1], swap=rnd.random() < 0.3)))
     return dict(concepts=concepts, sentences=sentences)
 
 
-def pick_oneof(rnd, concepts, clauses):
+def directed():
+    """fixed specifications that every run includes: the shapes a random draw reaches only now and then"""
+    host = ('host', False, None)
+    cs = [dict(name='room', key='id', dom=('range', 1, 3)), dict(name='shelf', key='code', dom=('range', 1, 2))]
+    ch = ('choice', dict(subj='room', slabel=None, verb=host, card=('none',), obj='shelf', olabel=None, foreach=None, modal='can', whenever_then=False))
+
+    def cl(sl, ol, neg=False):
+        return dict(subj='room', slabel=sl, neg=neg, verb=host, obj='shelf', olabel=ol)
+    out = []
+    # the same verb twice, two 'is one of' clauses (cartesian product of the values; each copy keeps both verb atoms)
+    out.append(dict(concepts=cs, sentences=[ch, ('cons', dict(required=False, whenpart=[], main=[cl('R', 'S'), cl('T', 'S')], wh=None,
+                                                             oneof=('R', [1, 2]), oneof2=('T', [2, 3])))]))
+    out.append(dict(concepts=cs, sentences=[ch, ('cons', dict(required=True, whenpart=[cl('R', 'S')], main=[cl('T', 'S')], wh=None,
+                                                             oneof=('R', [1]), oneof2=('S', [1, 2])))]))
+    out.append(dict(concepts=cs, sentences=[ch, ('def', dict(subj='room', label='R', newpred='busy', body=[cl('R', 'S'), cl('T', 'S', True)],
+                                                            oneof=('S', [1, 2]), oneof2=('T', [3, 1])))]))
+    # one named instance, required/prohibited x positive/negated
+    for req in (False, True):
+        for neg in (False, True):
+            out.append(dict(concepts=cs, sentences=[ch, ('there', dict(required=req, neg=neg, verb=host, subj=('room', 'id', '2'), obj=('shelf', 'code', '1'),
+                                                                      swap=req != neg))]))
+    return out
+
+
+def pick_oneof(rnd, concepts, clauses, other_than=None, p=0.3):
     """(label, values) for ', where L is one of v1, v2' on a label of an integer-valued concept, or None"""
-    if rnd.random() > 0.3:
-        return None
-    # (with the same verb twice in the sentence the substitution's copies are printed with an extra unlinked atom 'v(_,_)': same
-    # meaning, different text; kept out of the byte-exact tie)
-    verbs = [c['verb'][0] for c in clauses]
-    if len(set(verbs)) != len(verbs):
+    if rnd.random() > p:
         return None
     cands = []
     for c in clauses:
         for cname, l in ((c['subj'], c['slabel']), (c['obj'], c['olabel'])):
             d = [x for x in concepts if x['name'] == cname][0]['dom']
-            if d[0] == 'range' and (l, d) not in cands:
+            if d[0] == 'range' and (l, d) not in cands and l != other_than:
                 cands.append((l, d))
     if not cands:
         return None
@@ -157,8 +191,15 @@ def render(spec):
                 lines.append('Every %s%s %s %s %s%s%s.' % (s['subj'], ' ' + s['slabel'] if s['slabel'] else '', s['modal'], verb_inf(s['verb']), ct, obj,
                                                         ' for each %s' % s['foreach'] if s['foreach'] else ''))
         elif kind == 'def':
-            oo = ', where %s is one of %s' % (s['oneof'][0], ', '.join(str(v) for v in s['oneof'][1])) if s.get('oneof') else ''
+            oo = render_oneof(s)
             lines.append('%s %s %s is %s when %s%s.' % (art(s['subj']).capitalize(), s['subj'], s['label'], s['newpred'], ' and also '.join(render_clause(c) for c in s['body']), oo))
+        elif kind == 'there':
+            ws = ['with %s %s equal to %s' % x for x in (s['subj'], s['obj'])]
+            if s['swap']:
+                ws.reverse()
+            w, cop, prep = s['verb']
+            lines.append('It is %s that there is %s%s %s %s.' % ('required' if s['required'] else 'prohibited', 'not ' if s['neg'] else '',
+                                                              art(w), w + (' ' + prep if prep else ''), ', '.join(ws)))
         else:
             head = 'It is %s that ' % ('required' if s['required'] else 'prohibited')
             if s['whenpart']:
@@ -167,10 +208,25 @@ def render(spec):
                 t = ' and also '.join(render_clause(c) for c in s['main'])
             if s['wh']:
                 t += ', where %s is %s %s' % (s['wh']['left'], s['wh']['phrase'], s['wh']['right'])
-            if s.get('oneof'):
-                t += ', where %s is one of %s' % (s['oneof'][0], ', '.join(str(v) for v in s['oneof'][1]))
+            t += render_oneof(s)
             lines.append(head + t + '.')
     return '\n'.join(lines) + '\n'
+
+
+def render_oneof(s):
+    if not s.get('oneof'):
+        return ''
+    t = ', where %s is one of %s' % (s['oneof'][0], ', '.join(str(v) for v in s['oneof'][1]))
+    if s.get('oneof2'):
+        t += ' and %s is one of %s' % (s['oneof2'][0], ', '.join(str(v) for v in s['oneof2'][1]))
+    return t
+
+
+def wrap_oneof(s, t):
+    for k in ('oneof', 'oneof2'):
+        if s.get(k):
+            t = '(SOneOf %s %s %s)' % (coq_str(s[k][0]), coq_list([coq_z(v) for v in s[k][1]]), t)
+    return t
 
 
 # ------------------------------------------------------------------ Coq terms
@@ -200,13 +256,11 @@ def coq_spec(spec):
                 coq_opt(None if not s['olabel'] else coq_str(s['olabel'])), coq_opt(None if not s['foreach'] else coq_str(s['foreach']))))
         elif kind == 'def':
             t = '(SDef %s %s %s %s)' % (coq_str(s['subj']), coq_str(s['label']), coq_str(s['newpred']), coq_list([c_clause(c) for c in s['body']]))
-            if s.get('oneof'):
-                t = '(SOneOf %s %s %s)' % (coq_str(s['oneof'][0]), coq_list([coq_z(v) for v in s['oneof'][1]]), t)
-            ss.append(t)
+            ss.append(wrap_oneof(s, t))
+        elif kind == 'there':
+            ss.append('(SThere %s %s %s %s %s)' % (coq_bool(s['required']), coq_bool(s['neg']), c_verb(s['verb']), coq_str(s['subj'][2]), coq_str(s['obj'][2])))
         else:
             wh = 'None' if not s['wh'] else '(Some {| w_left := %s; w_phrase := %s; w_right := %s |})' % (coq_str(s['wh']['left']), coq_str(s['wh']['phrase']), coq_str(s['wh']['right']))
             t = '(SCons %s %s %s %s)' % (coq_bool(s['required']), coq_list([c_clause(c) for c in s['whenpart']]), coq_list([c_clause(c) for c in s['main']]), wh)
-            if s.get('oneof'):
-                t = '(SOneOf %s %s %s)' % (coq_str(s['oneof'][0]), coq_list([coq_z(v) for v in s['oneof'][1]]), t)
-            ss.append(t)
+            ss.append(wrap_oneof(s, t))
     return '{| concepts := %s; sentences := %s |}' % (coq_list(cs), coq_list(ss))
